@@ -372,6 +372,48 @@ func corrC17(c *corrCtx) {
 			c.direct(fmt.Sprintf("C17/desc/tags%d", len(d.tags)), "description is not the string stored at the description tag's declared offset",
 				map[string]interface{}{"got": trunc([]byte(got), 200), "want_one_of": ws, "ntags": len(d.tags), "profile": hexs(trunc(data, 600))})
 		}
+		// the description is asked for later, after the caller has reused the memory the profile was read
+		// from (a *bytes.Buffer that is reset and refilled, a slice that is overwritten): one case in three
+		if i%3 == 0 {
+			for _, how := range []string{"buffer-reused", "slice-overwritten", "bytes-reader-overwritten"} {
+				own := append([]byte{}, data...)
+				var pr *icc.Profile
+				var err error
+				var pan interface{}
+				func() {
+					defer func() { pan = recover() }()
+					switch how {
+					case "buffer-reused":
+						buf := bytes.NewBuffer(own)
+						pr, err = icc.NewProfileReader(buf).ReadProfile()
+						buf.Reset()
+						buf.Write(bytes.Repeat([]byte{0xa5}, len(own)))
+					case "slice-overwritten":
+						pr, err = icc.NewProfileReader(bytes.NewBuffer(own)).ReadProfile()
+					default:
+						pr, err = icc.NewProfileReader(bytes.NewReader(own)).ReadProfile()
+					}
+				}()
+				for k := range own {
+					own[k] = 0x5a
+				}
+				if pan != nil || err != nil || pr == nil {
+					c.direct("C17/later/read/"+how, "reading a well-formed profile fails", map[string]interface{}{"how": how, "err": fmt.Sprint(err), "panic": fmt.Sprint(pan)})
+					continue
+				}
+				ds, derr, dpan := safeDescription(pr)
+				lateMatch := false
+				for _, w := range want {
+					if derr == nil && dpan == nil && ds == string(w) {
+						lateMatch = true
+					}
+				}
+				if !lateMatch {
+					c.direct(fmt.Sprintf("C17/later/%s/tags%d", how, len(d.tags)), "the description changes when it is asked for after the caller reused the memory the profile was read from",
+						map[string]interface{}{"how": how, "got": hexs(trunc([]byte(ds), 100)), "err": fmt.Sprint(derr), "panic": fmt.Sprint(dpan), "ntags": len(d.tags)})
+				}
+			}
+		}
 	}
 	// the real profiles in the repository
 	for _, f := range realProfiles() {
